@@ -2,7 +2,12 @@
 
 package l1
 
-import "context"
+import (
+	"context"
+
+	"github.com/NethermindEth/juno/l1/geth/contract"
+	"github.com/ethereum/go-ethereum/event"
+)
 
 // Verification hook (add-only, compiled only with -tags verif): thin wrappers
 // around the unexported steps of Client so that /verif/harness/cmd/c17 can drive
@@ -24,4 +29,20 @@ func (c *Client) VerifBuffer() map[uint64]StateUpdate {
 		out[k] = *v
 	}
 	return out
+}
+
+// VerifForward calls forwardStateUpdates (the loop behind
+// GethL1StateProvider.WatchStateUpdate) on harness-supplied channels.
+func VerifForward(
+	gethSub event.Subscription,
+	gethEventsCh <-chan *contract.StarknetLogStateUpdate,
+	updatesCh chan<- *StateUpdate,
+) Subscription {
+	return forwardStateUpdates(gethSub, gethEventsCh, updatesCh)
+}
+
+// VerifDecode calls stateUpdateFromGethContract (used by FilterStateUpdate
+// and by the forwarding loop).
+func VerifDecode(ev *contract.StarknetLogStateUpdate) *StateUpdate {
+	return stateUpdateFromGethContract(ev)
 }
